@@ -421,7 +421,15 @@ func (spt *Tracker) recoverWithPinInfo(ctx context.Context, pi *api.PinInfo) (*a
 	switch pi.Status {
 	case api.TrackerStatusPinError, api.TrackerStatusUnexpectedlyUnpinned:
 		logger.Infof("Restarting pin operation for %s", pi.Cid)
-		err = spt.enqueue(ctx, api.PinCid(pi.Cid), optracker.OperationPin)
+		// re-issue the pin recorded in the shared state (mode, name,
+		// allocations...), not a default recursive one.
+		pin := api.PinCid(pi.Cid)
+		if st, stErr := spt.getState(ctx); stErr == nil {
+			if gpin, getErr := st.Get(ctx, pi.Cid); getErr == nil {
+				pin = gpin
+			}
+		}
+		err = spt.enqueue(ctx, pin, optracker.OperationPin)
 	case api.TrackerStatusUnpinError:
 		logger.Infof("Restarting unpin operation for %s", pi.Cid)
 		err = spt.enqueue(ctx, api.PinCid(pi.Cid), optracker.OperationUnpin)
